@@ -121,6 +121,14 @@ def oracle(abbr, cfg, meta, r):
                 if k != len(emitted):
                     return '%d empty attribute values / empty leaves in the output, %d tabstops emitted (%r)' % (
                         k, len(emitted), emitted[:12])
+    if '{' not in abbr and not uses_field_snippet(abbr, cfg) and not (o.get('output.compactBoolean') and o['output.selfClosingStyle'] != 'html'):
+        # (compact boolean attributes are written name="" outside the html style: not an empty VALUE)
+        # every empty attribute value of the result holds a tabstop: a field callback writes (its empty placeholder)
+        # exactly between the two delimiters -- in every syntax, also for a value written as `[title=""]`
+        field_offsets = set(e[3] for e in events if e[0] == 'field')
+        for m in fu.EMPTY_ATTR_RE.finditer(final):
+            if m.start() + 2 not in field_offsets:
+                return 'the empty attribute value at offset %d (%r) has no tabstop' % (m.start(), final[max(0, m.start() - 12):m.end()])
     groups = meta.get('groups')
     if groups is not None:
         return check_groups(emitted, groups)
@@ -130,7 +138,7 @@ def oracle(abbr, cfg, meta, r):
 # ---------------------------------------------------------------- stylesheet side (implementation only)
 CSS_PARTS = ['p10', 'm10-20', 'm', 'p', 'bd1-s#f', 'c#f00', 'pos:a', 'd:n', 'fz12', 'lh1.5', 'bgc', 'w100p', 'bdrs10',
              'trf:r', 'ov:h', 'fl:l', 'm-a', 'bg', 'bgi', 'c', 'op', 'zi10', 'ff:a', 'tt:u', 'fw:b', 'mt${1:x}', 'p!',
-             'foo:bar', 'bxsh', 'trs', '@m', 'anim', 'gtc']
+             'foo:bar', 'bxsh', 'trs', '@m', 'anim', 'gtc', 'cont"a\nb"', "ff'x\r\ny z'", 'cont"one\n\ntwo"']
 
 
 def impl_style_events(abbr, cfg):
@@ -222,6 +230,8 @@ FIXED = [
     ('ul>li.item$*2>a{t$ ${1:ph}}', {'syntax': 'pug'}),
     ('div.c[title]{a\nb}>p', {'syntax': 'haml', 'options': {'output.baseIndent': '  '}}),
     ('table>tr>td[title= colspan]', {'syntax': 'slim'}),
+    ('p[title=""]', {'syntax': 'pug'}), ("a[href='' title]+b[t={}]", {'syntax': 'haml'}), ('p[title=""]>a[href=""]', {'syntax': 'slim'}),
+    ('p[title=""]+a[href=\'\']', {}), ('input[value="" disabled.]', {'syntax': 'pug'}),
 ]
 
 
